@@ -822,10 +822,15 @@ func runC07Gen(c *rt.Ctx, spec string, depth int) {
 }
 
 func c07Worker(job json.RawMessage) (any, error) {
-	var probe struct{ Spec string }
+	var probe struct{ Spec, Startup string }
 	json.Unmarshal(job, &probe)
 	if probe.Spec != "" {
 		return bfs.Worker(c07GenSpecs)(job)
+	}
+	if probe.Startup != "" {
+		var sj c07StartJob
+		json.Unmarshal(job, &sj)
+		return c07StartExec(sj), nil
 	}
 	var j c07Job
 	if err := json.Unmarshal(job, &j); err != nil {
@@ -898,6 +903,7 @@ func runC07(c *rt.Ctx) {
 			c.Sample(map[string]any{"scenario": scns[it.scn].Name, "operation": scns[it.scn].Op, "fault": it.mode + " before " + res.Fault, "boundary_calls": counts[it.scn], "accounting": res.Outcome})
 		}
 	})
+	runC07Startup(c)
 	// generated part: every state reachable by a history of <= L operations x every operation offered there
 	if c.Quick() {
 		runC07Gen(c, "C07-gen-fee0", 2)
